@@ -58,7 +58,7 @@ Definition repr53 (q : Q) : bool :=
 Fixpoint val_exact (v : pval) : bool :=
   match v with
   | VFloat q => repr53 q
-  | VInt z => Z.log2 (Z.abs z) <? 4000           (* far below CPython's int -> str digit limit and any overflow *)
+  | VInt z => Z.log2 (Z.abs z) <? 12000          (* above the evaluator's size bound (fold_max_bits + a sum chain), below CPython's int -> str digit limit (4300 digits) *)
   | VList l | VTuple l => forallb val_exact l
   | _ => true end.
 Definition all_exact (c : cenv) (e : pexpr) : bool :=
